@@ -140,6 +140,41 @@ for _nb in (2, 3, 4, 5):
     _degen_unit(_nb)
 
 
+def _degen_concrete(rng, n):
+    """the real Data_K.degen on concrete energies of every magnitude (the threshold is ABSOLUTE): same spec as the symbolic units"""
+    from wannierberri.data_K.data_K import Data_K
+    fn = Data_K.__dict__["degen"]
+    fn = getattr(fn, "func", fn)
+    fails, cases = [], 0
+    for t in range(40 if n <= 30 else 400):
+        nb = rng.randint(2, 6)
+        scale = rng.choice([0.0, 1.0, 40.0, -35.0, 1000.0])
+        thr = rng.choice([1e-4, 1e-3, 1e-6])
+        gaps = [rng.choice([0.0, 0.5 * thr, 1.5 * thr, 3.0 * thr, 0.3, 1.0]) for _ in range(nb - 1)]
+        E = [scale]
+        for g_ in gaps:
+            E.append(E[-1] + g_)
+        me = type("D", (), {})()
+        me.E_K = rnp.array([E])
+        me.degen_thresh_random_gauge = thr
+        got = [tuple(int(x) for x in g_) for g_ in fn(me)[0]]
+        real_gaps = [E[i + 1] - E[i] for i in range(nb - 1)]
+        want, a = [], 0
+        for i in range(nb):
+            if i == nb - 1 or real_gaps[i] > thr:
+                if i + 1 - a > 1:
+                    want.append((a, i + 1))
+                a = i + 1
+        cases += 1
+        if got != want:
+            fails.append(dict(input=dict(E=E, thresh=thr), clause="groups = maximal runs of gaps <= thresh (absolute), length > 1", got=got, expected=want))
+    return dict(cases=cases, failures=fails, distinct=cases)
+
+
+Unit("C04", "Data_K.degen [real function, all energy scales]", concrete=_degen_concrete,
+     bounded_desc="real Data_K.degen on 40 (quick) / 400 (thorough) energy ladders with gaps around the threshold at energy offsets 0, 1, 40, -35, 1000 eV")
+
+
 # ------------------------------------------------------------------ UU_K
 def _uu_unit(random_gauge):
     @unit("C04", "Data_K.UU_K[random_gauge=%s]" % random_gauge, scope="shape:nk=2, 4 bands, groups (1,3) and (0,2)+(2,4)", expect_min=2,
